@@ -21,7 +21,11 @@ PATH_FUNCS = {  # name -> indexes of path arguments
     "mkdir": (0,), "rmdir": (0,), "chmod": (0,), "listdir": (0,), "scandir": (0,), "open": (0,),
     "truncate": (0,), "link": (0, 1), "symlink": (0, 1), "utime": (0,), "access": (0,),
 }
-_SWALLOWING_PROBES = {"exists", "isfile", "isdir", "lexists", "islink", "ismount"}
+# existence questions: os.path.* report a failing stat as "absent"; pathlib's let some errors through, but a store that asks
+# "is it there?" through pathlib and maps an OSError to "no" asks the same question - neither is a fault site
+_STRICT_STAT_CALLERS = {"getsize", "getmtime", "getatime", "getctime"}
+_SWALLOWING_PROBES = {"exists", "isfile", "isdir", "lexists", "islink", "ismount", "is_file", "is_dir", "is_symlink", "is_mount",
+                      "is_socket", "is_fifo", "samefile"}
 PROBES = {"stat", "lstat", "access", "listdir", "scandir"}   # not fault sites, not mutations
 MUTATING = {"rename", "replace", "remove", "unlink", "mkdir", "rmdir", "chmod", "truncate", "link",
             "symlink", "utime", "f.write", "f.writelines", "f.truncate", "f.flush", "f.close",
@@ -126,8 +130,12 @@ def _wrap_path_func(name, real, idxs):
             # other stat (os.path.getsize, os.stat, Path.stat) lets the error through: a fault site like any other operation
             import sys
             try:
-                caller = sys._getframe(1).f_code
-                if not (caller.co_name in _SWALLOWING_PROBES and ("genericpath" in caller.co_filename or "posixpath" in caller.co_filename)):
+                f = sys._getframe(1)
+                # a stat issued by os.path.getsize / getmtime / ... is a SIZE (time) QUERY: its failure always reaches the caller.
+                # Every other stat may be somebody's way of asking "is it there?" (os.path.exists, Path.is_file, an own
+                # try/except around os.stat) and stays a probe - conservative on purpose: a fault is only injected where the
+                # platform certainly reports it
+                if f is not None and f.f_code.co_name in _STRICT_STAT_CALLERS and "genericpath" in f.f_code.co_filename:
                     nm = "stat.strict"
             except Exception:
                 pass
